@@ -26,6 +26,12 @@ CLAIMS = {
  "C14": ("proof", "Constructors store Vars(e) = union of the children's; evaluation returns only if the point supplies Vars(e) and raises CoordinateMissing only if it does not (per class, every route); bare numbers accepted exactly for <= 1 variable; Derivative likewise; Point.coordinate and point_on_number_line contracts; Variable accepts exactly non-empty word-character names (regex literal checked).", "§5 C14"),
  "C15": ("proof", "Straight-line post-conditions of the six operator dunders over a tagged union of operands: the result is the named constructor applied to the very operand objects in order; ** forks on the exponent kind; non-expressions / non-integral / non-positive exponents are rejected; no reflected operators exist.", "§5 C15"),
  "C16": ("proof", "Constructor contracts of all 15 classes over tagged-union arguments: accepted <=> well-formed, parameters reported back (n as the integer), Vars and memo fields initialised.", "§5 C16"),
+
+ "C06": ("proof", "Each route's contract (returns the true partial / raises DomainError exactly where the expression is undefined) is proved for Partial, Derivative, Differential.component(.).at, component_at, at(.).component and LocatedDifferential, early, late and after as_expression() switched a late object, variable given as object or name; agreement of any two routes is the logical corollary (proved as a lemma); Differential.component builds the Partial of the same expression and variable, Differential.at the LocatedDifferential of the same expression and point; early and late as_expression() perform the same calls on the same immutable arguments. Imports the C05/C08 obligations (known finding D2 reported).", "§5 C06"),
+ "C09": ("proof", "Memo-coherence protocol: every method that reads the memo requires Coherent(self,p) and re-establishes it (proved per class, all outcomes); _reset_evaluation_cache clears every reachable memo; every public entry (at, _numeric_partials, Partial/Derivative/Differential/LocatedDifferential queries, constant folding) is proved with NOTHING assumed about memo state, so its answer is a function of (structure, point); two-step histories on one object and on roots sharing a child, including failing first calls; flags are set only on rule-free / undefined-variable-free nodes; structural readers and symbolic methods do not read the memo (frame analysis). Imports C08 (known finding D2 seen through the as_expression path switch).", "§5 C09"),
+ "C10": ("proof", "Frame conditions decided for every function of the package by an AST frame / escape analysis (every attribute store, every mutating container operation, every container stored at construction, every structural reader is an enumerated obligation), cross-checked by the heap log of the symbolic executor on every explored path of every family.", "§5 C10"),
+ "C17": ("proof", "Union of the safety obligations of every public route: each builtin precondition (division, power, log, sqrt, round, gcd, unpack, subscript) proved on each path; every reachable raise is DomainError or CoordinateMissing; constructor preconditions inside rules and symbolic partials proved; abstract methods overridden in every concrete class.", "§5 C17"),
+ "C18": ("other", "Static non-interference: every syntactic use of an unordered collection (sets of variable names, dicts filled from them), every hash()/id() call and every module/class-level binding is classified against an allow-list (fail-closed); the symbolic executor enforces the same discipline (a set supports only truthiness, len, membership, union, guarded singleton unpack and for-each-insert loops); Point hashing goes through sorted(items) (proved order independent in C12).", "§5 C18"),
 }
 
 NOT_APPLICABLE = {
@@ -60,8 +66,9 @@ def main():
         json.dump(m, fh, indent=1)
 
 
-OTHER_NOTE = {}
-TECH_OVERRIDE = {}
+OTHER_NOTE = {"C18": "Trusted: the kind inference of pyvc/order.py (set-kinded expressions are recognised syntactically: set displays, set()/union calls, the _variable_names field, parameters annotated set/Iterable or named variable_names; unknown contexts fail closed), libm determinism, CPython's insertion-ordered dicts. The check is a static analysis over the real AST, not an SMT proof, hence level `other`."}
+TECH_OVERRIDE = {"C18": "order-independence obligations at every use of an unordered collection, enumerated from the real AST on every run and decided by a flow analysis (allow-list, fail-closed); replay: hash-seed / spelling-order battery on the real code",
+                 "C10": "frame / ownership conditions enumerated from the real AST of every function on every run (attribute stores, container mutations, constructor aliasing, structural readers), plus the executor's heap log on every explored path"}
 
 if __name__ == "__main__":
     main()
